@@ -11,7 +11,7 @@ import enum
 import random
 from dataclasses import dataclass, field
 from pathlib import Path
-from typing import Literal
+from typing import Any, Literal
 
 from pyoak.node import ASTNode
 from pyoak.origin import (
@@ -141,6 +141,7 @@ class PropZoo(Expr):
     fl: float = 0.0
     fss: frozenset[str] = frozenset()
     tf: tuple[frozenset[str], ...] = ()
+    anyt: tuple[Any, ...] = ()     # items that may be == but of different types (1 / True / 1.0)
     hidden: int = field(default=0, compare=False)
 
 
@@ -278,7 +279,8 @@ class Gen:
     """Seeded generator of zoo trees."""
 
     def __init__(self, rng: random.Random, *, origins: bool = True, falsy: bool = True,
-                 share: float = 0.08, long_tuples: bool = True):
+                 share: float = 0.08, long_tuples: bool = True, serial: bool = False):
+        self.serial = serial
         self.rng = rng
         self.origins = origins
         self.falsy = falsy
@@ -303,8 +305,9 @@ class Gen:
             n = Falsy(n=r.randint(0, 2), origin=o)
         elif k < 0.92:
             elems = [r.randint(0, 40) for _ in range(r.randint(0, 4))]
-            n = PropZoo(e=r.choice(list(Color)), t=tuple(r.choice([r.randint(0, 3), r.randint(0, 3), True, False, 1.0, 0.0])
-                                                      for _ in range(r.randint(0, 3))),
+            n = PropZoo(e=r.choice(list(Color)), t=tuple(r.randint(0, 3) for _ in range(r.randint(0, 3))),
+                        anyt=tuple(r.choice([r.randint(0, 3), True, False, 1.0, 0.0, "1", None])
+                                   for _ in range(r.randint(0, 3))),
                         fs=frozenset(elems), o=r.choice([None, 0, 1]), lit=r.choice(["a", "b"]),
                         p=Path(r.choice([".", "a/b", "/x"])), fl=r.choice([0.0, 1.5, -2.25, 1e10]),
                         fss=frozenset(gen_str(r) for _ in range(r.randint(0, 4))),
@@ -315,7 +318,7 @@ class Gen:
             n = Two(a=gen_str(r), b=gen_str(r), origin=o)
         elif k < 0.97:
             n = Slotted(v=r.randint(0, 3), origin=o)
-        elif k < 0.99:
+        elif k < 0.99 and self.serial:
             n = Serial(v=r.randint(0, 3), origin=o)
         else:
             n = Expr(origin=o)
